@@ -502,7 +502,7 @@ RULES["C05"] = ("replace commands: 4 bodies with captures whose values differ be
 def c05(ctx):
     ctx.technique = "Replacement(m) of spec/Replace.tla + Eval/Exec of spec/Expr.tla evaluated by TLC, replayed into Compile/Run"
     cases = ctx.gen_cases("C05")
-    ctx.replay("C05-with-lists", cases, FIELDS["C05"])
+    ctx.replay("C05-with-lists", cases, FIELDS["C05"], eval_timeout=900 if ctx.tier == "quick" else 2400)
 
 
 def run_sharded_machine(ctx, module, cases, invariants, nshards=None, timeout=900, extra_const=""):
@@ -557,7 +557,7 @@ def big_file_cases(base, quick):
         ([A, B, Cc, 10] * 1100) + z9 + ([B, A] * 2500),
     ]
     if not quick:
-        contents += [[A] * 4096 + z9 + [B] * 4096, [A] * 12289 + z9 + [B] * 8193 + z9 + [Cc] * 2047, z9 * 3000,
+        contents += [[A] * 4096 + z9 + [B] * 4096, [A] * 12289 + z9 + [B] * 8193 + z9 + [Cc] * 2047, z9 * 120 + [A] * 4100 + z9 * 120,
                      [A] * 2047 + z9 + [B] * 2048 + z9 + [Cc] * 6145 + z9]
     lit_ = lambda b: {"k": "lit", "s": list(b), "ci": False, "neg": False}
     withs = [list(b"A-LONGER-REPLACEMENT-TEXT"), [], [81]]
@@ -585,7 +585,8 @@ def c06(ctx):
     ctx.technique = "file-system state machine spec/FS.tla model-checked (mode invariants, splice lemma); every behaviour replayed through RunFiles"
     cases = ctx.gen_cases("C06")
     cases += big_file_cases(max(c["id"] for c in cases) + 1, ctx.tier == "quick")
-    docs, st = run_sharded_machine(ctx, "FS", cases, ["OnlyAllowedFilesChange", "SpliceLemma", "LitScanAgrees", "Emit"])
+    docs, st = run_sharded_machine(ctx, "FS", cases, ["OnlyAllowedFilesChange", "SpliceLemma", "LitScanAgrees", "Emit"],
+                                   timeout=900 if ctx.tier == "quick" else 2400)
     if len(docs) != len(cases):
         raise Undecided("FS.tla emitted %d final states for %d cases" % (len(docs), len(cases)))
     ctx.add_mc("FS", st, "OnlyAllowedFilesChange and SpliceLemma in every state of every behaviour of the file-system machine")
@@ -727,6 +728,33 @@ def check_spellings(ctx, cases, exps):
     return len(groups)
 
 
+def name_scope_cases():
+    L = lambda b: {"k": "lit", "s": list(b), "ci": False, "neg": False}
+    anyc = {"k": "cls", "c": "any", "neg": False}
+    cap = lambda name, body: {"k": "cap", "name": name, "body": body}
+    loop = lambda mn, mx, body: {"k": "loop", "min": mn, "max": mx, "few": False, "name": "", "body": body}
+    ref = lambda name: {"k": "ref", "name": name}
+    sub = lambda name, es: {"k": "sub", "name": name, "es": es}
+    find = lambda body: {"kind": "find", "amt": {"k": "all"}, "body": body}
+    repl = lambda body, w: {"kind": "replace", "amt": {"k": "all"}, "body": body, "with": w}
+    N = lambda n: {"k": "name", "name": n}
+    S = lambda b: {"k": "str", "s": list(b)}
+    defs = [{"name": "p", "es": [L(b"a"), loop(0, 1, L(b"b"))], "pred": []}]
+    cmds = [
+        find([cap("x", L(b"a"))]), repl([cap("x", L(b"b"))], [N("x"), N("x")]), repl([cap("x", anyc), ref("x")], [S(b"<"), N("x")]),
+        find([sub("s", [L(b"a")]), loop(0, 1, ref("s"))]), repl([sub("s", [L(b"b")]), ref("s")], [S(b"S")]),
+        find([ref("p")]), repl([ref("p")], [S(b"P")]), repl([L(b"b"), ref("p")], [N("value"), S(b"!")]), find([loop(1, -1, ref("p"))]),
+        repl([cap("y", L(b"a"))], [N("x"), S(b"-"), N("y")]),          # x was never bound in THIS command
+    ]
+    cases = []
+    for i, a in enumerate(cmds):
+        for j, b in enumerate(cmds):
+            cases.append({"id": len(cases) + 1, "defs": defs, "cmds": [a, b], "sigma": [97, 98], "lo": 1, "hi": 3})
+    for (i, j, k) in ((0, 1, 5), (5, 6, 8), (3, 4, 3), (1, 9, 0), (6, 5, 6), (2, 0, 1)):
+        cases.append({"id": len(cases) + 1, "defs": defs, "cmds": [cmds[i], cmds[j], cmds[k]], "sigma": [97, 98], "lo": 1, "hi": 3})
+    return cases
+
+
 def redefinition_cases():
     L = lambda b: {"k": "lit", "s": list(b), "ci": False, "neg": False}
     loop = lambda mn, mx, body: {"k": "loop", "min": mn, "max": mx, "few": False, "name": "", "body": body}
@@ -796,6 +824,9 @@ def c13(ctx):
     # `set x to matches <command>` between commands: compiled, inert, and without effect on its neighbours
     sm = setmatches_cases()
     ctx.replay("C13-set-matches", sm, FIELDS["C13"], reject_violation=True)
+    # names are per command: a capture, a subroutine or a reference to a global used by one command means nothing
+    # to the next one, whether that is a find or a replace
+    ctx.replay("C13-name-scopes", name_scope_cases(), FIELDS["C13"] + ["repl"], reject_violation=True)
     # definitions between the commands: a name redefined after a use (each command sees the definition before it)
     ctx.replay("C13-redefinition", redefinition_cases(), FIELDS["C13"], reject_violation=True)
     # the relocation of stored global code, on the specification: every command of every program
@@ -1498,6 +1529,11 @@ def c17_cases():
         for combo in itertools.product(toks, repeat=n):
             texts.append(list(b"".join(combo)))
     # characters beyond the basic plane (surrogate pairs in JSON escapes), the last BMP character, line separators
+    # text that LOOKS like a JSON escape (a backslash followed by u003c), and the characters encoders like to escape
+    for e in ("\\u003c", "\\u0026x\\u003e", "<&>", "\\n", "\\\"", "%s%d", "\\u00e9"):
+        eb = e.encode()
+        texts.append(list(eb))
+        texts.append(list(b"a" + eb + b"a"))
     for e in ("\U0001F600", "\U00010000", "\U0010FFFF", "\uffff", "\u2028", "\ud7ff", "\ue000"):
         eb = e.encode()
         texts.append(list(eb))
@@ -1692,6 +1728,43 @@ def session_histories(ctx):
     for v in rep["violations"]:
         v["property"] = ctx.prop
     ctx.absorb(ctx.prop + "-histories", rep)
+    # sources outside the modelled subsets (several regex literals, transforms with scratch names): the expectation of a
+    # call is what it returns in a process of its own; every history must give every call that result
+    xs = ["find all @/(r)/ @/x(s)/", "find all @/x(s)/", "set f to transform set x to 1 set y to true return 'a' end replace all 'r' with f",
+          "set g to transform if y == '' then return head x + match end return 'n' end replace all 's' with g"]
+    xtexts = [list(b"rxs xs"), list(b"xsr")]
+    xexp = {}
+    for k, sct in enumerate(xs):
+        p = subprocess.run([ctx.get_harness(), "alone1"], input=json.dumps({"src": sct, "texts": xtexts}), capture_output=True, text=True, timeout=60)
+        try:
+            doc = json.loads(p.stdout)
+        except Exception:
+            raise Undecided("alone1 failed: " + p.stderr[-500:])
+        if "runs" not in doc:
+            raise Undecided("a history source does not compile alone: %s: %s" % (sct, doc))
+        for ti, ms in enumerate(doc["runs"]):
+            xexp["%d,%d" % (k, ti)] = ms
+    d2 = ctx.scratch.sub("hist2")
+    out2, sth2 = vlib.run_tlc(d2, "Histories", "SPECIFICATION Spec\nCONSTANTS NSrc = 4\nNText = 2\nMaxLen = %d\nFailSrc = 99\nINVARIANTS RunsWellFormed Emit\nCHECK_DEADLOCK FALSE\n" % n,
+                              workers=4, timeout=600, heap="2g")
+    if not sth2["ok"]:
+        raise Undecided("Histories.tla failed:\n" + vlib.tlc_error_excerpt(out2))
+    ip2, rp2 = os.path.join(d2, "in.ndjson"), os.path.join(d2, "report.json")
+    with open(ip2, "w") as f:
+        for k, doc in enumerate(vlib.tlc_json_lines(out2)):
+            h = json.loads(doc)
+            h.update({"id": k + 1, "srcs": xs, "texts": xtexts, "expect": xexp})
+            f.write(json.dumps(h, separators=(",", ":")) + "\n")
+    p = subprocess.run([ctx.get_harness(), "session", "-in", ip2, "-report", rp2], capture_output=True, text=True, timeout=900)
+    if p.returncode != 0 or not os.path.exists(rp2):
+        raise Undecided("session replay failed: " + p.stderr[-1500:])
+    with open(rp2) as f:
+        rep2 = json.load(f)
+    for k in ("abstained_quirk", "ast_checked", "ast_mismatch", "rejected_by_compile"):
+        rep2.setdefault(k, 0)
+    for v in rep2["violations"]:
+        v["property"] = ctx.prop
+    ctx.absorb(ctx.prop + "-histories-alone", rep2)
 
 
 RULES["C19"] = ("(i) all interleavings of 3 concurrent Compile processes (2, 1, 2 regex groups) of spec/Session.tla, locked "
